@@ -228,7 +228,8 @@ def run_analyse(c) -> CaseResult:
             got = float(txt)
             if math.isnan(want) and math.isnan(got):
                 continue
-            if not math.isclose(got, want, rel_tol=6e-3, abs_tol=1e-12):
+            # (abs 1e-6: a gradient that is pure float32 cancellation noise - e.g. 2e-8 for O(1) tensors - differs between any two runs)
+            if not math.isclose(got, want, rel_tol=6e-3, abs_tol=1e-6):
                 res.fail(f"C18.analyse.{label}-annotation", f"{name}: annotated {txt}, captured standard deviation {want:.4g}\n{src}")
             n_checked += 1
     res.nontrivial = n_checked > 0
